@@ -57,7 +57,9 @@ def YDOT(x):
 
 
 def _opaque(t):
-    return isinstance(t, tuple) and bool(t) and t[0] in ("acc", "carried", "after", "unknown", "mutated")
+    # (a value handed back by a helper method that could not be expanded is built elsewhere, too)
+    return isinstance(t, tuple) and bool(t) and (t[0] in ("acc", "carried", "after", "unknown", "mutated")
+                                                 or (t[0] == "meth" and len(t) == 5 and t[1] in (("param", "self"), ("param", "cls")) and t[2] not in _ANCHORS))
 
 
 def scalar_constants(pkg, cls):
@@ -237,7 +239,7 @@ class OdeModel:
         # one loop over a concatenation (`for sign, i in chain(zip(repeat(" - "), R), zip(repeat(" + "), P))`) is the loops it abbreviates
         from .normalize import split_concat_loops
         func = split_concat_loops(func)
-        self.flow = Flow(func, FILE, proc_resolver=_resolver, resolver=_pure_resolver)
+        self.flow = Flow(func, FILE, proc_resolver=_resolver, resolver=_pure_resolver, records=pkg.records())
         fl = self.flow
         self._expand_built_lists(fl)
         self._index_slice_loops(fl)
@@ -554,7 +556,7 @@ class OdeModel:
             lists = (self.REAC_FIELD, self.REAC, self.HEAT, self.COOL)
             foreign = outer is not None and any(isinstance(x, tuple) and x and ((x[0] == "meth" and x[1] in (("param", "self"), ("param", "cls"))) or x[0] in ("unknown", "carried", "after", "acc"))
                                                 for lp_ in f.loops for x in walk(simp(lp_.iter)))
-            if outer is not None and (foreign or any(x in lists for lp_ in f.loops for x in walk(simp(lp_.iter)))):
+            if outer is not None and (foreign or contains(simp(outer.iter), _opaque) or any(x in lists for lp_ in f.loops for x in walk(simp(lp_.iter)))):
                 # (also: a loop over what a helper method returns / over a list built elsewhere -- the entities it walks are not known)
                 s.problems.append(("unrec", "loop-shape", f"store into {f.target} inside a loop over {show(simp(outer.iter))[:80]}: loop form not understood"))
             else:
